@@ -36,8 +36,10 @@ FIXTURE_IMPORTS = [
     ('from os import path as {n}', None),
     ('from collections import OrderedDict', ['OrderedDict']),
 ]
-STAR_IMPORTS = ['from fx_star import *', 'from fx_pkg.sub import *']
-STAR_NAMES = {'from fx_star import *': ['s1', 's2', 'a'], 'from fx_pkg.sub import *': ['sa', 'sb']}
+STAR_IMPORTS = ['from fx_star import *', 'from fx_pkg.sub import *', 'from fx_glob import *']
+STAR_NAMES = {'from fx_star import *': ['s1', 's2', 'a'], 'from fx_pkg.sub import *': ['sa', 'sb'],
+              'from fx_glob import *': ['GLEVEL', 'gflag', 'gplain']}
+ALL_STAR_NAMES = {n for v in STAR_NAMES.values() for n in v}
 REL_IMPORTS = [('from . import sub', ['sub']), ('from .sub import sa as {n}', None), ('from . import rel as {n}', None)]
 
 
@@ -82,7 +84,7 @@ class B(object):
     def readable(self, ctx):
         """A name to read: mostly pool names, sometimes functions/classes/builtins/never-bound."""
         k = self.draw(st.integers(0, 19))
-        bound = [n for n in ctx.get('bound', ()) if n in POOL or n[:1] in 'ij' or n[:2] == 'ex' or n == 'self']
+        bound = [n for n in ctx.get('bound', ()) if n in POOL or n[:1] in 'ij' or n[:2] == 'ex' or n == 'self' or n in ALL_STAR_NAMES]
         if k < 16 and bound:
             return self.pick(bound)
         if k < 13:
@@ -460,6 +462,11 @@ class B(object):
                 body.append(stmt)
                 raiser = 'last'
             self.features.add('try-raises-' + raiser)
+        exc_var = None
+        if self.profile == 'c01' and raiser and self.chance(15):
+            exc_var = self.name()
+            body.insert(0, ind + '    %s = ValueError' % exc_var)
+            self.features.add('except-type-bound-in-try')
         lines = [ind + 'try:'] + body
         nh = self.draw(st.integers(0 if not raiser else 1, 2))
         has_finally = self.chance(35) or nh == 0
@@ -467,7 +474,9 @@ class B(object):
             k = self.draw(st.integers(0, 9))
             if hi == nh - 1 and raiser:
                 # the last handler always catches what the body raises
-                if self.profile == 'c01' and k < 2:
+                if exc_var:
+                    head = 'except %s:' % exc_var
+                elif self.profile == 'c01' and k < 2:
                     head = 'except:'
                     self.features.add('bare-except')
                 elif k < 6:
@@ -763,7 +772,11 @@ class B(object):
 
     def s_star(self, ctx, ind, depth):
         self.features.add('star-import')
-        return [ind + self.pick(STAR_IMPORTS)]
+        line = self.pick(STAR_IMPORTS)
+        self.bind(ctx, STAR_NAMES[line] * 2)
+        b = ctx.setdefault('bound', [])
+        b.extend(n for n in STAR_NAMES[line] if n not in POOL)      # weight them up: they are what the import is for
+        return [ind + line, ind + 'use(%s)' % ', '.join(STAR_NAMES[line][:2])]
 
     def s_return(self, ctx, ind, depth):
         self.features.add('return')
